@@ -346,10 +346,10 @@ def rule_r4(chk, m):
 
 def run(chk):
     m = chk.repo.mod(MOD)
-    rule_r1(chk, m)
-    rule_r2(chk, m)
-    rule_r3(chk, m)
-    rule_r4(chk, m)
+    chk.guard(rule_r1, chk, m)
+    chk.guard(rule_r2, chk, m)
+    chk.guard(rule_r3, chk, m)
+    chk.guard(rule_r4, chk, m)
     chk.assumptions = [
         "years 0..9999 (four-digit SDMX years); segments within 1..f (C09-R3)",
         "third-party date strings are outside the clause; only strings the library itself writes",
